@@ -1209,6 +1209,8 @@ impl Reader {
   // notifies DataReaders (or any listeners that history cache has changed for
   // this reader) likely use of mio channel
   pub fn notify_cache_change(&mut self) {
+    #[cfg(rustdds_verif)]
+    crate::verif::sched::yp("n0");
     // async notify mechanism
     self
       .data_reader_waker
@@ -1216,9 +1218,13 @@ impl Reader {
       .unwrap() // TODO: unwrap
       .take() // Take to nullify the reference
       .map(|w| w.wake_by_ref()); // If Some, call wake_by_ref
+    #[cfg(rustdds_verif)]
+    crate::verif::sched::yp("n1");
 
     // mio-0.8 notify
     self.poll_event_sender.send();
+    #[cfg(rustdds_verif)]
+    crate::verif::sched::yp("n2");
 
     // mio-0.6 notify
     match self.notification_sender.try_send(()) {
